@@ -35,6 +35,8 @@ FIXED = [
  ("F27", ["C18"], "2852a6c", "menu min/max table dropped the last field for odd field counts >= 3"),
  ("F28", ["C18"], "55d9fbc", "menu default listing crashed on plotfiles without Y(...) fields"),
  ("F29", ["C18"], "a9953d7", "menu stored unknown names as unanchored regexes: 'phi' hid 'phi2', names with '(' raised re.error"),
+ ("F36", ["C04"], "1344ac0", "taste accepted bytes inserted in front of a box header (and offsets pointing a few bytes off the FAB keyword)"),
+ ("F37", ["C04"], "338fb7a", "taste accepted a level header lacking a box and its FabOnDisk entry (counts adjusted) although the plotfile header announces more boxes"),
  ("F19", ["C13", "C18"], "584d6d0", "marinate with a trailing slash wrote plt/.pkl inside the input"),
 ]
 OPEN = [
